@@ -48,6 +48,13 @@ ASSUMPTIONS = [
 ]
 
 
+# Switch for the integrator: a sample restriction that selects no sample at all makes cyvcf2 raise
+# AttributeError ('NoneType' object has no attribute 'array') and pgenlib RuntimeError ("Empty sample_subset
+# is not currently permitted"). False = holds does not check such queries (agree compares the exception
+# kinds); True = holds demands "empty result + warning, no exception"; the failures then carry
+# "no-sample-selected=True" in their signature (candidate known finding).
+STRICT_EMPTY_SAMPLE_SELECTION = False
+
 # ----------------------------------------------------------------------------
 # content and queries
 
@@ -291,7 +298,7 @@ class Read(Relation):
     coq_case_type = "rcase"
     coq_model = "model_read"
     coq_imports = ["C07_Model", "C08_Model"]
-    budget = {"quick": 700, "thorough": 9000}
+    budget = {"quick": 500, "thorough": 9000}
     max_cases_per_shard = 120
     anchors = [
         ("haptools/data/genotypes.py", "Genotypes.read"),
@@ -370,8 +377,8 @@ class Read(Relation):
             return f"(mkfo {E.rgeno(o['full'])} {E.rgeno(o['read'])} {L.b(o['warned'])} {it})"
 
         ok = isinstance(obs, dict) and "vcf" in obs
-        return (f"(mkrc {g} {qt} {L.opt(q['chunk'], L.z)} {fobs(obs['vcf'] if ok else None)} "
-                f"{fobs(obs['pgen'] if ok else None)})")
+        return (f"(mkrc {g} {qt} {L.opt(q['chunk'], L.z)} {L.b(STRICT_EMPTY_SAMPLE_SELECTION)} "
+                f"{fobs(obs['vcf'] if ok else None)} {fobs(obs['pgen'] if ok else None)})")
 
     def nontrivial(self, inp, obs):
         return selects(inp["content"], inp["q"])[1]
@@ -432,7 +439,8 @@ class Read(Relation):
                 if "err" in o[k]:
                     parts.append(f"{fmt} {k} raised {o[k].get('cls')}")
         what = "; ".join(parts) if parts else "restricted read / iterator / other format differs from full read + subset"
-        return f"read: {what}; empty-match={empty}"
+        nosamp = inp["q"]["samples"] is not None and not (set(inp["q"]["samples"]) & set(inp["content"]["samples"]))
+        return f"read: {what}; empty-match={empty} no-sample-selected={nosamp}"
 
 
 # ----------------------------------------------------------------------------
@@ -445,7 +453,7 @@ class Subset(Relation):
     coq_case_type = "scase"
     coq_model = "model_subset"
     coq_imports = ["C07_Model", "C08_Model"]
-    budget = {"quick": 600, "thorough": 8000}
+    budget = {"quick": 500, "thorough": 8000}
     anchors = [
         ("haptools/data/genotypes.py", "Genotypes.subset"),
         ("haptools/data/genotypes.py", "Genotypes.index"),
